@@ -3,9 +3,10 @@
 (*                                                                                         *)
 (* One *group* of the trace (between {"e":"Reset"} events) belongs to one write history    *)
 (* under one writer configuration and consists of runs separated by {"e":"Rerun"}:         *)
-(*   run 1        the history on a sink that never fails; its Close must return OK and the *)
-(*                bytes the sink holds then must be a complete file (judged by the         *)
-(*                reference reader); they become "the complete file of the history" (ref)  *)
+(*   run 1        the history on a sink that never fails; its Close must return OK with    *)
+(*                every byte handed to the stream on the device; these bytes become "the   *)
+(*                complete file of the history" (ref).  If its Close fails the group is    *)
+(*                skipped (ref:close-failed: fault-free histories are C01's business)      *)
 (*   Prefixes     the open verdict of every proper prefix of ref, per open path            *)
 (*   runs 2..n    the same history with a failure point armed in the sink, or cut short    *)
 (*                by Abort                                                                 *)
@@ -13,7 +14,8 @@
 (* number of bytes the sink holds, and the stream operations (fwrite/fflush/fclose) the    *)
 (* library issued during the call with their results.                                      *)
 (*                                                                                         *)
-(* Judged (names of failed conditions go to `bad`, the rest of that run is skipped):       *)
+(* Judged (a rejected event is printed with the names of the failed conditions and counted *)
+(* in `bad`; the rest of that run is skipped):                                            *)
 (*   WSAckComplete   Close = OK  =>  all bytes reached the sink: nothing was refused and  *)
 (*                   the sink holds every byte handed to the stream, or it holds the      *)
 (*                   bytes of the fault-free run, or a file the reference reader maps to  *)
@@ -113,11 +115,11 @@ PrefixDetail ==
 
 \* ---- verdict on one event
 CallVerdict(can, name) == IF Ev.st = 0 /\ wst = "open" /\ ~can THEN {name} ELSE {}
-CloseVerdict ==
+CloseVerdict(comp) ==
     LET closeOk == Ev.st = 0
         fo == run.failedOps \cup FailedKinds(EvOps)
         anyErr == impl.anyErr \/ ~closeOk
-        ackBad == closeOk /\ ~WSAckComplete(closeOk, Completeness(Ev.bytes) # "no")
+        ackBad == closeOk /\ ~WSAckComplete(closeOk, comp # "no")
         repBad == ~WSFailReported(Ev.sf, anyErr)
     IN (IF run.refRun /\ ~closeOk THEN {"ref:close-failed"} ELSE {})
        \cup CallVerdict(CanClose, "close-not-enabled")
@@ -126,19 +128,19 @@ CloseVerdict ==
                  ELSE IF repBad THEN {"sink:failure-never-reported:" \o OpName(k) : k \in fo}
                  ELSE {"sink:close-ok-after-reported-failure:" \o OpName(k) : k \in fo})
            ELSE {})
-CloseDetail ==
+CloseDetail(comp) ==
     LET anyErr == impl.anyErr \/ Ev.st # 0
     IN "accepted=" \o ToString(Ev.acc) \o " of " \o ToString(Len(ref))
        \o (IF ~WSFailReported(Ev.sf, anyErr) THEN " fail-reported:violated" ELSE " fail-reported:ok")
-       \o (IF Ev.st = 0 /\ Completeness(Ev.bytes) = "no" THEN " ack-complete:violated(" \o CompleteWhy(Ev.bytes) \o ")" ELSE " ack-complete:ok")
+       \o (IF Ev.st = 0 /\ comp = "no" THEN " ack-complete:violated(" \o CompleteWhy(Ev.bytes) \o ")" ELSE " ack-complete:ok")
        \o " failed-ops=" \o ToString(run.failedOps \cup FailedKinds(EvOps))
 
-Verdict ==
+Verdict(comp) ==
     CASE Ev.e = "Create" ->
             IF ~Ev.ok THEN {"create-failed"} ELSE IF CanCreate(Ev.cols) THEN {} ELSE {"create-not-enabled"}
       [] Ev.e = "WriteBatch" -> CallVerdict(CanWriteBatch(Ev.c + 1, Ev.n, Ev.withDefs, Ev.defs, Ev.vals), "write-batch-not-enabled")
       [] Ev.e = "NewRowGroup" -> CallVerdict(CanNewRowGroup, "new-row-group-not-enabled")
-      [] Ev.e = "Close" -> CloseVerdict
+      [] Ev.e = "Close" -> CloseVerdict(comp)
       [] Ev.e = "Abort" ->
             (IF wst \notin {"open", "failed"} THEN {"abort-not-enabled"} ELSE {})
             \cup (IF ~WSAbortClean(impl.owned, FALSE, Ev.exists = 1) THEN {"abort:file-left-behind"} ELSE {})
@@ -147,14 +149,14 @@ Verdict ==
       [] Ev.e = "Fault" -> {"fault:" \o Ev.kind}
       [] OTHER -> {"unknown-event"}
 
-Detail == CASE Ev.e = "Close" -> CloseDetail
+Detail(comp) == CASE Ev.e = "Close" -> CloseDetail(comp)
             [] Ev.e = "Prefixes" -> PrefixDetail
             [] OTHER -> ""
 
 \* ---- state update for an allowed event
 AbsCall(A) == IF wst = "open" THEN (IF Ev.st = 0 THEN A ELSE Fail) ELSE UNCHANGED wvars
 SinkAfter == LET t == Track(EvOps) IN t
-CallUpdate(closing) ==
+CallUpdate(closing, comp) ==
     LET t == Track(EvOps)
     IN /\ sink' = t.s
        /\ run' = [run EXCEPT !.failedOps = @ \cup FailedKinds(EvOps), !.tracked = t.tracked, !.pos = @ + Handed(EvOps)]
@@ -166,9 +168,9 @@ CallUpdate(closing) ==
                                  !.okcloses = IF closing /\ Ev.st = 0 /\ ~run.refRun THEN @ + 1 ELSE @,
                                  !.spurious = IF Ev.st # 0 /\ ~Ev.sf THEN @ + 1 ELSE @,
                                  !.parsedcloses = IF closing /\ Ev.st = 0 /\ ~NothingLost /\ Ev.bytes # ref THEN @ + 1 ELSE @,
-                                 !.undecidedcloses = IF closing /\ Ev.st = 0 /\ ~run.refRun /\ Completeness(Ev.bytes) = "undecided" THEN @ + 1 ELSE @]
+                                 !.undecidedcloses = IF closing /\ Ev.st = 0 /\ comp = "undecided" THEN @ + 1 ELSE @]
 
-Apply ==
+Apply(comp) ==
     CASE Ev.e = "Create" ->
             /\ Create(Ev.cols)
             /\ sink' = SkNew(Ev.cap, Ev.arm)
@@ -178,12 +180,12 @@ Apply ==
             /\ ack' = [c \in 1..Len(Ev.cols) |-> [defs |-> <<>>, vals |-> <<>>]]
             /\ UNCHANGED ref
       [] Ev.e = "WriteBatch" ->
-            /\ AbsCall(WriteBatch(Ev.c + 1, Ev.n, Ev.withDefs, Ev.defs, Ev.vals)) /\ CallUpdate(FALSE) /\ UNCHANGED ref
+            /\ AbsCall(WriteBatch(Ev.c + 1, Ev.n, Ev.withDefs, Ev.defs, Ev.vals)) /\ CallUpdate(FALSE, comp) /\ UNCHANGED ref
             /\ ack' = IF Ev.st # 0 THEN ack
                       ELSE [ack EXCEPT ![Ev.c + 1] = [defs |-> @.defs \o RowDefs(Ev.c + 1, Ev.n, Ev.withDefs, Ev.defs),
                                                       vals |-> @.vals \o Ev.vals]]
-      [] Ev.e = "NewRowGroup" -> AbsCall(NewRowGroup) /\ CallUpdate(FALSE) /\ UNCHANGED <<ref, ack>>
-      [] Ev.e = "Close" -> /\ AbsCall(Close) /\ CallUpdate(TRUE)
+      [] Ev.e = "NewRowGroup" -> AbsCall(NewRowGroup) /\ CallUpdate(FALSE, comp) /\ UNCHANGED <<ref, ack>>
+      [] Ev.e = "Close" -> /\ AbsCall(Close) /\ CallUpdate(TRUE, comp)
                            /\ ref' = IF run.refRun /\ Ev.st = 0 THEN Ev.bytes ELSE ref
                            /\ UNCHANGED ack
       [] Ev.e = "Abort" -> /\ Abort
@@ -199,7 +201,7 @@ Apply ==
 
 Stats0 == [execs |-> 0, runs |-> 0, events |-> 0, failed |-> 0, sinkops |-> 0, drift |-> 0, okcloses |-> 0,
            spurious |-> 0, parsedcloses |-> 0, undecidedcloses |-> 0, aborts |-> 0, cuts |-> 0, opened |-> 0, undecided |-> 0]
-TInit == WSInit /\ l = 1 /\ skip = FALSE /\ bad = <<>> /\ stats = Stats0 /\ ref = <<>> /\ run = NoRun /\ ack = <<>>
+TInit == WSInit /\ l = 1 /\ skip = FALSE /\ bad = 0 /\ stats = Stats0 /\ ref = <<>> /\ run = NoRun /\ ack = <<>>
 
 Fresh == wst' = "none" /\ schema' = <<>> /\ cur' = <<>> /\ done' = <<>> /\ sink' = SkIdle /\ impl' = WSIdle /\ run' = NoRun /\ ack' = <<>>
 
@@ -214,16 +216,19 @@ TRerun == /\ l <= Len(Tr) /\ Ev.e = "Rerun" /\ l' = l + 1
 TSkip == /\ l <= Len(Tr) /\ Ev.e \notin {"Reset", "Rerun"} /\ skip
          /\ l' = l + 1 /\ UNCHANGED <<wst, schema, cur, done, sink, impl, skip, bad, stats, ref, run, ack>>
 TStep == /\ l <= Len(Tr) /\ Ev.e \notin {"Reset", "Rerun"} /\ ~skip
-         /\ LET v == Verdict
-            IN IF v = {} THEN Apply /\ UNCHANGED <<skip, bad>>
-               ELSE /\ bad' = Append(bad, [l |-> l, id |-> Ev.id, e |-> Ev.e, why |-> v, detail |-> Detail,
-                                            run |-> IF Has("run") THEN Ev.run ELSE ""])
+         /\ LET comp == IF Ev.e = "Close" /\ Ev.st = 0 THEN Completeness(Ev.bytes) ELSE "n/a"   \* evaluated once
+                v == Verdict(comp)
+            IN IF v = {} THEN Apply(comp) /\ UNCHANGED <<skip, bad>>
+               ELSE \* a rejected event is printed at once (one JSON line) and only counted in the state
+                    /\ PrintT(ToJson([verdict |-> [l |-> l, id |-> Ev.id, e |-> Ev.e, why |-> v, detail |-> Detail(comp),
+                                                   run |-> IF Has("run") THEN Ev.run ELSE ""]]))
+                    /\ bad' = bad + 1
                     /\ skip' = TRUE /\ UNCHANGED <<wst, schema, cur, done, sink, impl, stats, ref, run, ack>>
          /\ l' = l + 1
 
 TNext == TReset \/ TRerun \/ TSkip \/ TStep
 TSpec == TInit /\ [][TNext]_tvars
 
-Report == l = Len(Tr) + 1 => PrintT(ToJson([verdicts |-> bad, stats |-> stats, lines |-> Len(Tr)]))
+Report == l = Len(Tr) + 1 => PrintT(ToJson([rejected |-> bad, stats |-> stats, lines |-> Len(Tr)]))
 TInv == TypeOK /\ (wst \in {"open", "closed"} => DoneWellFormed)
 =============================================================================
